@@ -350,7 +350,7 @@ CLAIM = {
             "hand out references are `unsafe fn` (callers must state the invariant), the hand-off counters use Release/Acquire, and the "
             "phase-restricted hash-table operations are dominated by their readiness gates (the drain needs both drain_ready and scan_ready; "
             "per-partition latches carry a gate only if every store of true is behind it). Pointer arithmetic inside row layouts depends on "
-            "runtime sizes and is not decided. One bounds clause is decidable by sibling agreement and is decided: every physical type whose unsafe row-writer arm uses the heap pointers is sized (or rejected) by the safe heap-size computation that allocates the heap block.",
+            "runtime sizes and is not decided. One bounds clause is decidable by sibling agreement and is decided: every physical type whose unsafe row-writer arm uses the heap pointers is sized (or rejected) by the safe heap-size computation that allocates the heap block. And: every instantiation of the unchecked primitive Parquet value reader pairs a storage type and a physical type of the same byte width.",
     "note": "trusted: rustc MIR; the gate table in rules/c16.py (confirmed by reading hash_join/mod.rs); counters identified by field name prefix `remaining`",
     "technique": "static analysis: declaration rule + ordering table + MIR must-pass-through gates (rustc_private driver)",
 }
